@@ -27,15 +27,22 @@ func boolToInt(b bool) int {
 }
 
 func merge(kind Kind, key string, a, b []string) []string {
-	a = append(a, b...)
 	switch kind {
 	case FILE:
+		a = append(a, b...)
 		slices.SortFunc(a, compareFileAccess)
 	case VARIABLE:
+		a = append(a, b...)
 		slices.SortFunc(a, func(s1, s2 string) int {
 			return compare(s1, s2)
 		})
 	default:
+		if len(a) == 0 || len(b) == 0 {
+			// An empty list of accesses, signals or mount options stands for
+			// all of them: the union with it is again all of them.
+			return nil
+		}
+		a = append(a, b...)
 		slices.SortFunc(a, func(i, j string) int {
 			return requirementsWeights[kind][key][i] - requirementsWeights[kind][key][j]
 		})
